@@ -198,7 +198,7 @@ func main() {
 	if run.Tier == "thorough" {
 		ne = 600
 	}
-	for i := 0; i < ne; i++ {
+	for i := 0; i < ne && cpgen.E2EFailures < 3; i++ {
 		e2eCase(run.Seed, i)
 	}
 	run.Finish("case = one fetch history (reset + responses) of a generated log served by a simulated faithful broker, or one edge case; " +
